@@ -142,7 +142,7 @@ type task struct {
 	abortPending bool
 	blockedOn    func() bool
 	stall        bool
-	gid          uint64 // goroutine that runs the task's own code (engine requests are issued from it)
+	gid          atomic.Uint64 // goroutine that runs the task's own code (0 until that goroutine has started)
 }
 
 type scope struct {
@@ -236,7 +236,7 @@ func (s *Sched) newTask(scopes []*scope) *task {
 }
 
 func (s *Sched) runTask(t *task, start chan bool, f func(), after func()) {
-	t.gid = goid()
+	t.gid.Store(goid())
 	<-start
 	defer func() {
 		if r := recover(); r != nil {
@@ -454,6 +454,19 @@ func goid() uint64 {
 	return id
 }
 
+// foreign reports that a scheduler is active but the calling goroutine is not the task it is
+// running: a goroutine started behind the scheduler's back (by a dependency), or one that outlived
+// its ABCI call. Such a goroutine must never touch the scheduler's state: the seams below fall back
+// to plain Go behaviour for it (without moving the simulated clock).
+func foreign() bool {
+	if mode != Det {
+		return false
+	}
+	s := active.Load()
+	// (a task whose goroutine has not started yet cannot be the caller either)
+	return s != nil && s.cur != nil && s.cur.gid.Load() != goid()
+}
+
 // EngineCall wraps one JSON-RPC request of the engine client (pkg/ethrpc).
 func EngineCall(call func() error) error {
 	if mode != Det || !engineGuard.Load() {
@@ -464,7 +477,7 @@ func EngineCall(call func() error) error {
 		return call() // the harness is starting a node on this goroutine (engine client handshake)
 	}
 	s := sched()
-	if s != nil && s.cur != nil && s.cur.gid == g {
+	if s != nil && s.cur != nil && s.cur.gid.Load() == g {
 		return call()
 	}
 	where := "while no ABCI call was in progress"
@@ -495,6 +508,9 @@ var spinCtr uint64
 
 // Yield is a scheduling point.
 func Yield() {
+	if foreign() {
+		return
+	}
 	s := sched()
 	if s == nil {
 		if mode == Free {
@@ -591,6 +607,9 @@ func (h *Handler) Exit() {
 // T1: timers and deadlines.
 
 func Sleep(d time.Duration) {
+	if foreign() {
+		return
+	}
 	s := sched()
 	if s == nil {
 		if mode == Free || envPtr.Load() != nil {
@@ -679,6 +698,9 @@ func (c *simCtx) Err() error {
 func (c *simCtx) Deadline() (time.Time, bool) { return c.Context.Deadline() }
 
 func WithTimeout(parent context.Context, d time.Duration) (context.Context, context.CancelFunc) {
+	if foreign() {
+		return context.WithCancel(parent)
+	}
 	s := sched()
 	if s == nil {
 		if mode == Free || envPtr.Load() != nil {
@@ -706,6 +728,10 @@ func WithDeadline(parent context.Context, at time.Time) (context.Context, contex
 // T3: goroutines, errgroup, WaitGroup.
 
 func Go(f func()) {
+	if foreign() {
+		go f()
+		return
+	}
 	s := sched()
 	if s == nil {
 		go f()
@@ -717,6 +743,9 @@ func Go(f func()) {
 }
 
 func GroupWithContext(ctx context.Context) (*errgroup.Group, context.Context) {
+	if foreign() {
+		return errgroup.WithContext(ctx)
+	}
 	s := sched()
 	if s == nil {
 		return errgroup.WithContext(ctx)
@@ -740,6 +769,10 @@ func (s *Sched) group(eg *errgroup.Group) *group {
 }
 
 func GroupGo(eg *errgroup.Group, f func() error) {
+	if foreign() {
+		eg.Go(f)
+		return
+	}
 	s := sched()
 	if s == nil {
 		eg.Go(f)
@@ -767,6 +800,9 @@ func GroupGo(eg *errgroup.Group, f func() error) {
 }
 
 func GroupWait(eg *errgroup.Group) error {
+	if foreign() {
+		return eg.Wait()
+	}
 	s := sched()
 	if s == nil {
 		return eg.Wait()
@@ -786,7 +822,7 @@ func GroupWait(eg *errgroup.Group) error {
 
 func WGAdd(wg *sync.WaitGroup, n int) {
 	wg.Add(n)
-	if s := sched(); s != nil {
+	if s := sched(); s != nil && !foreign() {
 		c := s.wgs[wg]
 		if c == nil {
 			c = new(int)
@@ -797,7 +833,7 @@ func WGAdd(wg *sync.WaitGroup, n int) {
 }
 
 func WGDone(wg *sync.WaitGroup) {
-	if s := sched(); s != nil {
+	if s := sched(); s != nil && !foreign() {
 		if c := s.wgs[wg]; c != nil {
 			*c--
 		}
@@ -806,7 +842,7 @@ func WGDone(wg *sync.WaitGroup) {
 }
 
 func WGWait(wg *sync.WaitGroup) {
-	if s := sched(); s != nil {
+	if s := sched(); s != nil && !foreign() {
 		if c := s.wgs[wg]; c != nil {
 			for *c > 0 {
 				s.cur.state = tsBlocked
